@@ -309,6 +309,9 @@ def main(ctx):
     # ---- 6. the client side of the dialogue (specs/Auth/AuthClient.tla) ----
     from checks import c05_client
     c05_client.run(ctx, ctx.tier == 'quick')
+    # ---- 7. host-based authentication, server side (HostBased.tla) ----
+    from checks import c05_hostbased
+    c05_hostbased.run(ctx, ctx.tier == 'quick')
 
     ctx.assumptions += [
         'application validators are truthful functions of (user, credential)',
